@@ -306,6 +306,7 @@ if C_QUOTERS:
                  spec=None, spec_module=spec_quote, raises=(MemoryError,),
                  loops={0: {"inv": "0 <= idx and idx <= length and must_quote == 0 and skippable_from(self, val, idx)"}},
                  native_pre=hooks.skip_pre, native_post=hooks.skip_post,
+                 abstract=_cmodel.inner_call_contract("quote_or_skip"),
                  props=("C05", "C01", "C04", "C19"),
                  note="fast path (nothing to quote) is sound; writer initialised before and released after _do_quote"))
 
@@ -347,9 +348,21 @@ if C_UNQUOTERS:
                             "same": "unit_is_input(UNIT, val, G_p, CONSUMED)",
                             "stream_result": _c_unquoter_stream_result}},
                  post="(result is not val) or len(val) == 0 or (G_same and G_p == len(val))",
+                 abstract=_cmodel.inner_call_contract("do_unquote"),
                  props=("C06", "C05", "C19"),
                  note="stream simulation of the compiled decoder against spec_unquote.u_step; buffer[0:buflen] is the "
                       "held-back prefix; returning the argument itself only when nothing was changed"))
+
+if C_QUOTERS:
+    add(Contract("yarl._quoting_c_pyx:_Quoter.__call__",
+                 [("self", CONST(*C_QUOTERS.values())), ("val", UNION(OPT(STR), CONST(1, b"x")))],
+                 spec=spec_quote.c_call, raises=(TypeError,), props=("C05", "C01", "C19"),
+                 note="type dispatch of the compiled quoter: None passed through, non-str rejected, str handed to _do_quote_or_skip"))
+if C_UNQUOTERS:
+    add(Contract("yarl._quoting_c_pyx:_Unquoter.__call__",
+                 [("self", CONST(*C_UNQUOTERS.values())), ("val", UNION(OPT(STR), CONST(1, b"x")))],
+                 spec=spec_quote.c_call, raises=(TypeError,), props=("C06", "C05", "C19"),
+                 note="type dispatch of the compiled unquoter"))
 
 _ALLQ = CONST(*PY_QUOTERS.values())
 add(Lemma(spec_quote.lemma_canonical_is_fixed, [("quoter", _ALLQ), ("B", BYTES), ("p", INT)],
@@ -384,9 +397,10 @@ add(Contract("yarl._url:URL.__setstate__", [("self", "fresh-url"), ("state", "pi
 add(Contract("yarl._path:normalize_path_segments", [("segments", "seglist")], spec=None, abstract=hooks.nps_abstract,
              native_spec=spec_path.normalize_path_segments, spec_module=spec_path,
              native_pre=hooks.nps_pre, native_post=hooks.nps_post,
-             loops={0: {"inv": ("segs_no_dots(resolved_path) and len(resolved_path) <= __k and "
-                                "(not segs_no_dots_upto(segments, __k) or segs_prefix_equal(resolved_path, segments, __k))"),
-                        "step_post": "segs_step(OLD_resolved_path, seg, resolved_path)"}},
+             loops={0: {"roles": True,
+                        "inv": ("segs_no_dots(__acc) and len(__acc) <= __k and "
+                                "(not segs_no_dots_upto(segments, __k) or segs_prefix_equal(__acc, segments, __k))"),
+                        "step_post": "segs_step(OLD___acc, __target, __acc)"}},
              props=("C15", "C14", "C19")))
 
 add(Lemma(spec_quote.lemma_output_is_canonical,
